@@ -16,7 +16,8 @@ PrefixOf(s, form) == CASE form = "single" -> s.single
 OwnTerms(s, form) == IF form = "inline" THEN <<s.me>> ELSE <<>>
 Extra == {<<>>, <<"\">">>, <<"'/>">>, <<"] ::">>, <<"-->">>, <<"*/", "-->">>}
 AlnumPrefixes == {"c", "dnl", "REM"}
-LicValues(p) == {"MIT", "GPL-2.0-or-later WITH Classpath-exception-2.0", "(MIT OR Apache-2.0) AND 0BSD", "LicenseRef-abc"}
+LicValues(p) == {"MIT", "GPL-2.0-or-later WITH Classpath-exception-2.0", "(MIT OR Apache-2.0) AND 0BSD", "LicenseRef-abc",
+                 "mit OR apache-2.0 WITH classpath-exception-2.0"}      \* (identifiers are read as written: no capitalisation is restored)
                   \cup (IF p \in AlnumPrefixes THEN {"LicenseRef-x" \o Reverse(p)} ELSE {})
 TextValues(p) == {"2020 Jane Doe", "2019-2021 ACME, Inc. <https://acme.example>", "Eric Poc", "Written in C# by Ann"}
                    \cup (IF Strip(p) # "" THEN {"Eric Po" \o Reverse(Strip(p))} ELSE {})
